@@ -9,6 +9,7 @@ import shutil
 import torf
 
 import pipeline as P
+import streamlib as sl
 import sched as S
 
 K16 = 16384
@@ -44,6 +45,8 @@ def gen_scenario(rng, family):
             sc['sizes'] = (5,) * nf
         sc['single'] = nf == 1 and rng.random() < 0.5
         sc['renamed'] = rng.random() < 0.3
+        # the metainfo may list the files in an order that is not the path order
+        sc['names'] = rng.choice(['plain', 'plain', 'rev', 'mixed'])
         if rng.random() < (0.75 if family == 'verify' else 0.4):
             cands = [i for i in range(nf) if sc['sizes'][i] > 0] if family != 'verify' else list(range(nf))
             for i in rng.sample(cands, rng.choice([1, 1, 1, 2]) if len(cands) > 1 else 1):
@@ -89,6 +92,7 @@ def run_scenario(root, sc, seed):
     if os.path.exists(d):
         shutil.rmtree(d)
     os.makedirs(d)
+    sl.NAME_SCHEME = sc.get('names', 'plain') if sc['mode'] == 'verify' else 'plain'
     t, cp, ref, on_disk = P.build(d, sc['sizes'], sc['L'], single=sc['single'], for_verify=sc['mode'] == 'verify', damage=sc['damage'],
                                   disk_name='renamed dir' if sc.get('renamed') else None)
     calls = []
@@ -182,6 +186,7 @@ def judge(rec):
                     out.append(('C02', 'undocumented-error:' + type(res[1]).__name__ + zl, f'{res[1]!r:.100}'))
             elif len(sc['damage']) == 1 and isinstance(list(sc['damage'].values())[0], tuple) and isinstance(res[1], torf.VerifyContentError):
                 (i, k), = sc['damage'].items()
+                sl.NAME_SCHEME = sc.get('names', 'plain') if sc['mode'] == 'verify' else 'plain'
                 fpath = rec['cp'] if sc['single'] else os.path.join(rec['cp'], *sl.relpath_of(i))
                 piece = (sum(sc['sizes'][:i]) + k[1]) // sc['L']
                 if res[1].piece_index != piece or fpath not in [str(f) for f in res[1].files]:
@@ -196,6 +201,7 @@ def judge(rec):
                 out.append(('C02', 'no-error-reported' + zl, f'damage {sc["damage"]}: the callback never received an error'))
             elif res[0] == 'ok' and len(sc['damage']) == 1:
                 (i, k), = sc['damage'].items()
+                sl.NAME_SCHEME = sc.get('names', 'plain') if sc['mode'] == 'verify' else 'plain'
                 fpath = rec['cp'] if sc['single'] else os.path.join(rec['cp'], *sl.relpath_of(i))
                 if isinstance(k, tuple):
                     piece = (sum(sc['sizes'][:i]) + k[1]) // sc['L']
